@@ -167,6 +167,25 @@ theorem C14_partial_value {s : St} (h : Reachable s) (t : Tid) (e : Option Bool)
     ∃ e' v, s.answer (s.loc t).seq = some (e', v) ∧ e = some e' ∧ o = some v :=
   (invS_of_reachable h).result_ok t e o hb hr
 
+set_option linter.unusedSimpArgs false in
+/-- **Dispatching a reply makes no request of its own.**  Between receiving a frame and publishing the result
+(`r0 … d5`: release, notify, `_dispatch`, `_seq_request_callback`, `AsyncResult.__call__`) a thread sends
+nothing and takes no sequence number: the window between the lock hand-off and the publication contains no
+network round trip.  This is the assumption under which the two listed schedule shapes are the only stalls; the
+correspondence checks it on the real code for by-reference results with a DEBUG logger configured (a dispatcher
+that sends a request there — e.g. `repr()` of a proxy in a log line — is rejected by the model, and the stall it
+causes carries the signature `C14:dispatcher-blocks-in-nested-request-before-publication`). -/
+theorem dispatcher_sends_no_request {s s' : St} (t : Tid)
+    (hp : (s.loc t).pc.holding = true ∨ (s.loc t).pc.completing = true) (hs : step s (.run t) = some s') :
+    s'.outstanding = s.outstanding ∧ s'.seqCounter = s.seqCounter ∧ s'.issued = s.issued := by
+  simp only [step, stepRun] at hs
+  generalize hpc : (s.loc t).pc = pc at hs hp
+  cases pc <;> simp [PC.holding, PC.completing] at hp <;>
+    simp only [doR0, doN0, doN1, doN2, doD0, doD1, doD2, doD3, doD4, doD5, Option.some.injEq] at hs <;>
+    (repeat' split at hs) <;>
+    (first | (subst hs; simp [setLoc, setCell, markDispatched])
+           | (cases hs; first | done | simp [setLoc, setCell, markDispatched]))
+
 /-- the three partial results together -/
 theorem C14_partial {s : St} (h : Reachable s) (t : Tid) (hc : inCall s t = true) :
     ((s.cells (s.loc t).seq).ready = true → s.popper (s.loc t).seq = some t → blocked s t = false) ∧
